@@ -203,6 +203,18 @@ ROpenSeg(q, f) == /\ G_ROpenSeg(q, f)
                   /\ r' = [r EXCEPT ![q].held = @ \cup {f}, ![q].pc = "ready"]
                   /\ UNCHANGED <<files, toc, content, lock, w, nseg, clean>>
 
+\* refresh(): a reader that has finished opening lists the directory again and, when there is a newer generation,
+\* moves to it: it opens that TOC and keeps, of the files it holds, exactly those of segments the new TOC still
+\* has (FileIndex._reader(reuse=...): the readers of unchanged segments are reused, the others are opened anew
+\* by ROpenSeg, and what was merged away is let go)
+G_RRefresh(q, g) == /\ r[q].pc \in {"opening", "ready"} /\ r[q].gen >= 0
+                    /\ \A s \in SegIds(toc[r[q].gen]) : \E f \in r[q].held : f[2] = s
+                    /\ g = Latest /\ g > r[q].gen /\ <<"toc", g>> \in DOMAIN files
+RRefresh(q, g) == /\ G_RRefresh(q, g)
+                  /\ r' = [r EXCEPT ![q].gen = g, ![q].want = g, ![q].pc = "opening", ![q].failed = FALSE,
+                                    ![q].held = {f \in @ : f[2] \in SegIds(toc[g])}, ![q].seen = DOMAIN files]
+                  /\ UNCHANGED <<files, toc, content, lock, w, nseg, clean>>
+
 \* what the reader returns: exactly the state its generation committed (C03)
 ProbeOK(q, keys, gen, uptodate) ==
   /\ r[q].gen >= 0
@@ -331,8 +343,9 @@ RClose(q) == /\ r[q].pc \in {"opening", "ready"} /\ NeedSeg(q) = {}
              /\ r' = [r EXCEPT ![q] = RInit]
              /\ UNCHANGED <<files, toc, content, lock, w, nseg, clean>> /\ todo' = todo
 
+RRefr(q) == RRefresh(q, Latest) /\ todo' = todo
 Next == \/ \E p \in Writers : WStart(p) \/ WPlan(p) \/ WRun(p) \/ WCrash(p)
-        \/ \E q \in Readers : RStart(q) \/ RToc(q) \/ RSeg(q) \/ RClose(q)
+        \/ \E q \in Readers : RStart(q) \/ RToc(q) \/ RSeg(q) \/ RClose(q) \/ RRefr(q)
 
 Spec == Init /\ [][Next]_allvars
 \* a writer that was opened is eventually committed or cancelled by its user, and keeps running
